@@ -119,6 +119,39 @@ def r3_weibull(ctx):
         cls = (DIST, cname)
         if cls not in ix.classes:
             raise AnalysisError("C08.R3", f"anchor vanished: {cname}")
+        # the censoring indicator is used entry by entry (one per individual AND event type): no reduction of `x.weight` over an axis
+        REDUCE = {"any", "all", "sum", "max", "min", "amax", "amin", "mean", "prod", "count_nonzero", "nansum"}
+        collapsed = False
+        for kk in ix.mro(cls):
+            if kk not in ix.classes or kk[0] != DIST:
+                continue
+            for b in ix.classes[kk].body:
+                if not isinstance(b, ast.FunctionDef):
+                    continue
+                fm = ix.funcs.get((kk[0], f"{kk[1]}.{b.name}"))
+                if fm is None:
+                    continue
+                tainted = set()
+
+                def is_t(e):
+                    return any((isinstance(n_, ast.Attribute) and n_.attr == "weight") or (isinstance(n_, ast.Name) and n_.id in tainted) for n_ in ast.walk(e))
+                for _ in range(4):
+                    for st in statements(b):
+                        if isinstance(st, ast.Assign) and is_t(st.value):
+                            for t_ in st.targets:
+                                for n_ in ast.walk(t_):
+                                    if isinstance(n_, ast.Name):
+                                        tainted.add(n_.id)
+                for c_ in ast.walk(b):
+                    if isinstance(c_, ast.Call) and isinstance(c_.func, ast.Attribute) and c_.func.attr in REDUCE:
+                        recv_t = is_t(c_.func.value) and U(c_.func.value) != "torch"
+                        arg_t = U(c_.func.value) == "torch" and c_.args and is_t(c_.args[0])
+                        if recv_t or arg_t:
+                            collapsed = True
+                            ctx.violation("C08.R3", fm, c_, f"{cname}: `{U(c_)[:70]}` reduces the censoring indicator over an axis: an event observed for one event type then counts as observed "
+                                          "for the others (their log-hazard is added although they are censored)", instance=cname)
+        if collapsed:
+            continue
         ev = SymEval(ix, cls, atoms={"x.value": X, "x.weight": ind})
         args = [sym("xobj"), nu, rho, xi, tau] + ([s] if with_src else [])
         nu_ref = nu * F["exp"](-(xi + s / rho)) if with_src else F["exp"](-xi) * nu
